@@ -59,11 +59,20 @@ def parse_frac(s):
 
 # ---------------------------------------------------------------- findings
 def load_findings():
-    p = VERIF / "known_findings.json"
-    if not p.exists():
-        return []
-    with open(p) as f:
-        return json.load(f).get("findings", [])
+    """known_findings.json (the committed list) plus per-property fragments findings/Cxx.json
+    (tools/merge_findings.py folds the fragments into the committed list). Read-only."""
+    out, seen = [], set()
+    paths = [VERIF / "known_findings.json"] + sorted((VERIF / "findings").glob("*.json"))
+    for p in paths:
+        if not p.exists():
+            continue
+        with open(p) as f:
+            for e in json.load(f).get("findings", []):
+                k = (e.get("property"), e.get("signature"))
+                if k not in seen:
+                    seen.add(k)
+                    out.append(e)
+    return out
 
 
 class Failure:
